@@ -22,6 +22,7 @@ import locale
 import os
 import warnings
 import time
+import contextlib
 
 
 def get_archive_path(path: pathlib.Path, root: pathlib.Path):
@@ -151,6 +152,31 @@ def is_valid_archive_path(archive, file: zipfile.ZipFile):
     return True
 
 
+@contextlib.contextmanager
+def _open_for_append(root, retries=1, **kwargs):
+    """Open an existing archive for appending.
+
+    The file is opened here ("r+b") and handed to zipfile as a file object:
+    zipfile.ZipFile(path, mode="a") silently falls back to "w+b" - re-creating
+    the archive without the members written so far - when opening fails.
+    Only the opening is retried on PermissionError (GH82); retrying after a
+    partial append would corrupt the archive.
+    """
+    for i in range(retries):
+        try:
+            fp = open(root, "r+b")
+        except PermissionError:
+            if i < retries - 1:
+                warnings.warn("opening '%s' failed, retrying..." % str(root))
+                time.sleep(1)
+                continue
+            raise
+        break
+    with fp:
+        with zipfile.ZipFile(fp, mode="a", **kwargs) as f:
+            yield f
+
+
 def write_str(string: str, path: pathlib.Path,
               encoding=None, newline=None,
               compression=None,
@@ -182,9 +208,8 @@ def pandas_to_pickle(obj, path: pathlib.Path,
             filepath = str(pathlib.Path(dirname).joinpath("temp"))
             obj.to_pickle(filepath)
             archive = get_archive_path(path, root)
-            with zipfile.ZipFile(
+            with _open_for_append(
                     root,
-                    mode="a",
                     **_compress_kwargs(compression, compresslevel)
                     ) as f:
                 if not _archive_exists(archive, f):
@@ -228,8 +253,8 @@ def write_file(callback, path: pathlib.Path, mode,
     if root:
         archive = get_archive_path(path, root)
         with get_io(mode) as buff:
-            with zipfile.ZipFile(
-                    root, mode="a",
+            with _open_for_append(
+                    root,
                     **_compress_kwargs(compression, compresslevel)
             ) as f:
                 if not _archive_exists(archive, f):
@@ -265,8 +290,8 @@ def copy_file(src: pathlib.Path, dst: pathlib.Path,
         arc_dst = get_archive_path(dst, root_dst)
         with zipfile.ZipFile(root_src, mode="r") as zip_src:
             with zip_src.open(arc_src, mode="r") as f_src:
-                with zipfile.ZipFile(
-                        root_dst, mode="a",
+                with _open_for_append(
+                        root_dst,
                         **_compress_kwargs(compression, compresslevel)
                         ) as zip_dst:
                     if not _archive_exists(arc_dst, zip_dst):
@@ -293,25 +318,14 @@ def copy_file(src: pathlib.Path, dst: pathlib.Path,
 
         # workaround to prevent permission error when writing to zip on network
         # https://github.com/fumitoh/modelx/issues/82
-        retries = 3
-        for i in range(retries):
-            try:
-                with zipfile.ZipFile(root_dst, mode="a",
-                                     **_compress_kwargs(compression, compresslevel)
-                                     ) as zip_dst:
-                    if not _archive_exists(arc_dst, zip_dst):
-                        if is_valid_archive_path(arc_dst, zip_dst):
-                            zip_dst.write(src, arc_dst)
-                        else:
-                            raise ValueError("invalid archive '%s'" % arc_dst)
-            except PermissionError:
-                if i < retries - 1:
-                    warnings.warn("writing to '%s' failed, retrying...")
-                    time.sleep(1)
-                    continue
+        with _open_for_append(root_dst, retries=3,
+                              **_compress_kwargs(compression, compresslevel)
+                              ) as zip_dst:
+            if not _archive_exists(arc_dst, zip_dst):
+                if is_valid_archive_path(arc_dst, zip_dst):
+                    zip_dst.write(src, arc_dst)
                 else:
-                    raise
-            break
+                    raise ValueError("invalid archive '%s'" % arc_dst)
 
     elif not root_src and not root_dst:
         shutil.copyfile(str(src), str(dst))
